@@ -380,3 +380,4 @@ var _ = strings.Join
 var _ resolver.RelationType
 
 func didnutsResolver(e *env) didnuts.Resolver { return didnuts.Resolver{Store: e.store} }
+var _ *testing.T
